@@ -655,7 +655,10 @@ impl Regex {
     }
 
     fn new_options(options: RegexOptions) -> Result<Regex> {
-        let raw_tree = Expr::parse_tree(&options.pattern)?;
+        let raw_tree = Parser::parse_with_case_insensitive(
+            &options.pattern,
+            options.syntaxc.get_case_insensitive(),
+        )?;
 
         // wrapper to search for re at arbitrary start position,
         // and to capture the match bounds
